@@ -51,7 +51,7 @@ ConfigPost(p, S) ==
   /\ \A e \in EdgeSet(S) : Cardinality(S.e2n[e]) = p.m
   /\ \A k \in DOMAIN p.maxdeg : Degree(S, p.maxdeg[k][1]) <= p.maxdeg[k][2]
 BipartitePost(p, S) ==   \* chung_lu / dcsbm: ids and members inside the prescribed sets
-  /\ NodeSet(S) \subseteq Range(p.nodes) /\ EdgeSet(S) \subseteq Range(p.sizes)
+  /\ NodeSet(S) = Range(p.nodes) /\ EdgeSet(S) \subseteq Range(p.sizes)
   /\ \A k \in DOMAIN p.maxdeg : TRUE
 
 \* ring_lattice(n, d, k, l): for every node v and every start in v+1 .. v+k/2 the edge
